@@ -240,6 +240,10 @@ func run(c px.Context, cfg *lib.Config, res *lib.Result) {
 		cf.Prelude = lat.Oracle(pats, strs)
 		res.CorrFiles = append(res.CorrFiles, cf.WriteTo(cfg.Out, fmt.Sprintf("cases_inst_%d", s)))
 	}
+	// ---- strings as bytes (bytes.go): after everything else, so that the families above draw the same numbers as before
+	runBytes(cfg, res, rng.Fork())
+	// ---- non-recursive aliases in member positions (alias.go)
+	runAlias(cfg, res, rng.Fork())
 }
 
 // registerTypes maps every decoded node of a type to the real sub-type (same traversal as VerifDecodeType).
@@ -275,6 +279,9 @@ func registerValueTypes(m map[*types.VerifTy]px.Type, d *types.VerifVal, v px.Va
 
 func replay(c px.Context, cfg *lib.Config, res *lib.Result) {
 	for _, in := range lib.ReplayInputs(cfg.Replay) {
+		if replayBytes(in, res) || replayAlias(in, res) {
+			continue
+		}
 		var x struct {
 			Kind string     `json:"kind"`
 			T    *lat.Spec  `json:"t"`
